@@ -3,7 +3,7 @@
 # session that produced them) and prints the catch tables that DESIGN.md §8.6 embeds.
 cd /verif
 export SEEDED_MANUAL=/tmp/verify_manual.log
-echo "#### Round 1"; python3 tools/mkseeded.py /tmp/seeded '/tmp/verify_wt*.log' /tmp/seedrun_all.log /tmp/seedrunF1.log /tmp/suite_reruns.log
-echo; echo "#### Round 2"; python3 tools/mkseeded.py /tmp/seeded2 '/tmp/verify2_wt*.log' /tmp/seedrun2_all.log /tmp/seedrunF2.log /tmp/suite_reruns.log
-echo; echo "#### Round 3"; python3 tools/mkseeded.py /tmp/seeded3 '/tmp/verify3_wt*.log' /tmp/seedrun3_all.log /tmp/seedrunF3.log /tmp/suite_reruns.log
-echo; echo "#### Round 4"; python3 tools/mkseeded.py /tmp/seeded4 '/tmp/verify4_wt*.log' /tmp/seedrun4_all.log /tmp/seedrunF4.log /tmp/suite_reruns.log
+echo "#### Round 1"; python3 tools/mkseeded.py /tmp/seeded '/tmp/verify_wt*.log' /tmp/seedrun_all.log /tmp/seedrunG1.log /tmp/suite_reruns.log
+echo; echo "#### Round 2"; python3 tools/mkseeded.py /tmp/seeded2 '/tmp/verify2_wt*.log' /tmp/seedrun2_all.log /tmp/seedrunG2.log /tmp/suite_reruns.log
+echo; echo "#### Round 3"; python3 tools/mkseeded.py /tmp/seeded3 '/tmp/verify3_wt*.log' /tmp/seedrun3_all.log /tmp/seedrunG3.log /tmp/suite_reruns.log
+echo; echo "#### Round 4"; python3 tools/mkseeded.py /tmp/seeded4 '/tmp/verify4_wt*.log' /tmp/seedrun4_all.log /tmp/seedrunG4.log /tmp/suite_reruns.log
